@@ -262,6 +262,8 @@ class C19(QueryFamily):
                    "C19_value_position is the statement that eval_term returns every value; tie = rows against the model on the falsy alphabet")
 
     def gen(self, rng, i, tier):
+        if rng.random() < 0.12:
+            return gen_query.gen_case_flat_scalar(rng, tier)
         nv = rng.choice([1, 2, 2])
         c = gen_query.gen_case(rng, nvars=nv, falsy=True, neg=rng.random() < 0.5, maxdepth=2, select=rng.choice(['all', 'some']), dom_max=4)
         # make falsy values dominant
@@ -591,18 +593,31 @@ class C11(QueryFamily):
                 c['sel'] = [t if (t[0] == 'nest' or y not in term_keys(t, set())) else ['map', ['f', gen_query.F['s']], ['var', x]]
                             for t in c['sel']]
         # make sure the shuffle/truncation kept every variable mentioned
-        mentioned = set()
-        for t in c['sel']:
-            term_keys(t, mentioned)
-        for k in keys:
-            if k not in mentioned:
-                c['sel'][rng.randrange(len(c['sel']))] = ['var', k]
-                mentioned = set()
-                for t in c['sel']:
-                    term_keys(t, mentioned)
+        def mention_counts():
+            cnt = collections.Counter()
+            for t in c['sel']:
+                for k in term_keys(t, set()):
+                    cnt[k] += 1
+            return cnt
+        for _ in range(8):
+            cnt = mention_counts()
+            missing = [k for k in keys if cnt[k] == 0]
+            if not missing:
+                break
+            # put the missing variable where no other variable loses its only mention (a constant, or a variable mentioned twice)
+            free = [j for j, t in enumerate(c['sel']) if t[0] != 'nest' and all(cnt[k] > 1 for k in term_keys(t, set()))]
+            if free:
+                c['sel'][rng.choice(free)] = ['var', missing[0]]
+            elif len(c['sel']) < 4:
+                c['sel'].append(['var', missing[0]])
+            else:
+                c['sel'][0] = ['var', missing[0]]
         c['binders'] = [['var', k] for k in keys]
         c['form'] = 'infer'
         c['infer'] = True
+        # how the head is written: keyword arguments, positional arguments (to a class whose positional parameters are
+        # interleaved with inherited and own keyword-only ones), or a mix
+        c['head_style'] = rng.choice(['kw', 'kw', 'pos', 'mixed'])
         return c
 
     def within_hypotheses(self, case):
@@ -622,7 +637,9 @@ class C11(QueryFamily):
         # (a nested constructor argument is modelled as one more conjunct of the body: the ORDER of the instances is not modelled)
         if isinstance(r, str):
             return r
-        return ('multiset', sorted(r)) if any(t[0] == 'nest' for t in case['sel']) else ('seq', r)
+        # (so is a head mixing positional and keyword arguments: the library evaluates the keyword ones first)
+        unordered = any(t[0] == 'nest' for t in case['sel']) or case.get('head_style') == 'mixed'
+        return ('multiset', sorted(r)) if unordered else ('seq', r)
 
     def canon(self, case, io):
         return self._tie(case, parse_rows(io['off'])), tuple(self.view(case, io[k], True) for k in self.observed())
@@ -645,6 +662,7 @@ class C11(QueryFamily):
             d['head_arg_' + t[0]] += 1
             if t[0] == 'lit' and not t[1]:
                 d['head_falsy_constant'] += 1
+        d['head_written_' + case.get('head_style', 'kw')] += 1
         rows = parse_rows(io['off'])
         if not isinstance(rows, str):
             d['instances_built'] += len(rows)
